@@ -1063,6 +1063,9 @@ class Declaration(Node):
         """
         if use_attr:
             name = self.attrs["name"] or self.attrs["_name"]
+            if name is not None and not isinstance(name, str):
+                # +name or +name=1
+                raise RuntimeError("name attribute must have a name as its value")
             if name is not None:
                 return name
         if self.declarator is None:
